@@ -625,6 +625,19 @@ func runC03(r *Run) int {
 			w.Sample(map[string]interface{}{"vector": s, "expected_env": float64(exp.Env) / 10, "built": "Decode"})
 		}
 	})
+	// (b'') every presence pattern of the optional metrics, defined values, canonical or random order
+	presencePatterns(r, r.Pick(2, 8), func(w *W, v *spec.V3, L int, rng *rand.Rand) {
+		exp := spec.Score3(v)
+		var sh *rand.Rand
+		if rng.IntN(2) == 0 {
+			sh = rng
+		}
+		s := render3(v, L, sh)
+		w.Eval(1)
+		if _, _, e, ok := obsScores3(w, spec.LEnv, s); ok && !tenthEq(e, exp.Env) {
+			w.Violate(Violation{Monitor: "C03", Check: "environmental score of a decoded vector equals the exact FIRST value", Case: decodeCase(lib.K3E, s, false), Observed: e, Expected: float64(exp.Env) / 10})
+		}
+	})
 	// (b') vectors decoded early in (b) are decoded again after hundreds of thousands of other distinct vectors
 	if !r.Thorough() {
 		r.Parallel(4000, 64, func(w *W, i int) {
